@@ -38,6 +38,13 @@ theorem c13_defined_replaces_forward (sch : Schema) (fc : FlagCfg) (a b : List V
   unfold mergeWith
   simp [ha]
 
+/-- **Load order does not matter for a definition and a forward reference**: whichever of the two
+libraries is loaded first, the merged type is the same. -/
+theorem c13_merge_commutes (sch : Schema) (fc : FlagCfg) (a b : List Val)
+    (ha : hasFlag sch.type a fc.typeFullyDefined = true) (hb : hasFlag sch.type b fc.typeFullyDefined = false) :
+    mergeWith sch fc a b = mergeWith sch fc b a := by
+  rw [c13_fully_defined_wins sch fc a b ha hb, c13_defined_replaces_forward sch fc b a hb]
+
 /-- **Compiled-in modules get their own contiguous range**: a module with `n > 0`
 indices receives `[next, next+n)` and the next free index moves up by `n`. -/
 theorem c13_module_range (s : St) (d : ModDef) (h : d.next - d.first > 0) :
